@@ -19,6 +19,8 @@ use crate::util::{announce, h64, par_for, Budget, Scratch};
 
 pub struct FaultResult {
     pub viol: Vec<Violation>,
+    /// Format violations (C13 rider): whatever was written under faults conforms to the format.
+    pub c13: Vec<Violation>,
     pub machinery: Option<String>,
     pub log: Vec<OpRec>,
     pub state_hash: u64,
@@ -110,6 +112,7 @@ pub fn run_fault_case(
     let log = icpt.take_log();
     let mut res = FaultResult {
         viol: Vec::new(),
+        c13: Vec::new(),
         machinery: None,
         log: Vec::new(),
         state_hash: 0,
@@ -236,9 +239,67 @@ pub fn run_fault_case(
             "err"
         }
     );
+    res.c13 = crate::c13::check_snapshot(
+        &snap,
+        Some(&{
+            let mut m = scn.band_src.clone();
+            m.insert(new, scn.src.clone());
+            m
+        }),
+        &at,
+    );
     res.log = log;
     let _ = std::fs::remove_dir_all(&dir);
     res
+}
+
+/// C13 rider: every single-fault and outage plan of every scenario; the resulting archive is
+/// judged by the independent format reader.
+pub fn run_format_rider(report: &Report, budget: &Budget) -> (usize, usize) {
+    let srcs = SrcCache::new();
+    let scenarios = scenarios(&srcs, true);
+    let main_scratch = Scratch::new("c13f");
+    let mut cases: Vec<(usize, Plan)> = Vec::new();
+    let mut traces = Vec::new();
+    for (si, scn) in scenarios.iter().enumerate() {
+        let (trace, _) = reference_trace(scn, &srcs, &main_scratch);
+        for r in &trace {
+            // the error kind does not matter to the format; two kinds keep both the
+            // "treated as absent" and the "hard error" paths
+            for kind in [ErrorKind::NotFound, ErrorKind::Other] {
+                cases.push((si, Plan::fail1(r.idx, kind)));
+            }
+            cases.push((
+                si,
+                Plan {
+                    fail_from: Some((r.idx, ErrorKind::Other)),
+                    ..Default::default()
+                },
+            ));
+        }
+        traces.push(trace);
+    }
+    let scratches: Vec<Scratch> = (0..crate::util::n_workers()).map(|_| Scratch::new("c13fw")).collect();
+    let done = par_for(cases.len(), budget, |w, i| {
+        let (si, plan) = &cases[i];
+        let scn = &scenarios[*si];
+        let _g = announce(w, || format!("C13 fault {} {}", scn.name, plan.describe()));
+        let r = run_fault_case(scn, &traces[*si], plan, &srcs, &scratches[w]);
+        if let Some(m) = r.machinery {
+            report.machinery_error(m);
+            return;
+        }
+        for v in &r.c13 {
+            report.violation(v, &case_json(scn, plan));
+        }
+        if i % 131 == 17 {
+            report.sample(json!({"scenario": scn.name, "fault": plan.describe(), "then": "independent reader judges the archive"}));
+        }
+        scratches[w].clear();
+    });
+    report.set("fault_cases", json!(done));
+    report.set("fault_cases_total", json!(cases.len()));
+    (done, cases.len())
 }
 
 pub fn case_json(scn: &Scenario, plan: &Plan) -> Value {
@@ -386,5 +447,7 @@ pub fn replay(case: &Value) -> Vec<Violation> {
     if let Some(m) = r.machinery {
         eprintln!("machinery: {m}");
     }
-    r.viol
+    let mut v = r.viol;
+    v.extend(r.c13);
+    v
 }
